@@ -2,6 +2,7 @@ package mintops
 
 import (
 	"encoding/hex"
+	"encoding/json"
 	"fmt"
 	"math/big"
 	"sort"
@@ -183,6 +184,50 @@ func (w *W) Exec(op string) error {
 		w.ProbeInfo()
 		if bal, err := w.M.M.TotalBalance(); err == nil && w.Cfg.Limits.MaxBalance > 0 && bal >= w.Cfg.Limits.MaxBalance {
 			w.InfoReadWhileDisabled = true // part of the canonical state: the server instance has served 'disabled' once
+		}
+		return nil
+	case "hrestore":
+		// POST /v1/restore with a FIXED batch (byte-identical request every time) made of the B_ of the outputs the client
+		// produces next: first nothing of it is signed, later operations sign some of them. Every answer must be the truth
+		// at that moment (C15), whatever the server answered to the same bytes before (C20: only mint and swap are cached)
+		if w.RestoreBatch == nil {
+			peek := *w.U // copy: does not consume the client's counter
+			for _, o := range peek.Outputs(w.M.ActiveID(), 1, 1, 1, 1, 1, 1) {
+				w.RestoreBatch = append(w.RestoreBatch, o.Msg)
+			}
+		}
+		body, _ := json.Marshal(map[string]any{"outputs": w.RestoreBatch})
+		code, resp, pan := world.Do(w.M.H, "POST", "/v1/restore", string(body))
+		w.note(op, nil)
+		w.HRestores++
+		if pan != nil || code != 200 {
+			w.viol("C15,C20", "fixed-restore-batch-refused", "POST /v1/restore of the fixed batch: status %d panic %v body %.120q", code, pan, resp)
+			return nil
+		}
+		var r struct {
+			Outputs    cashu.BlindedMessages   `json:"outputs"`
+			Signatures cashu.BlindedSignatures `json:"signatures"`
+		}
+		json.Unmarshal([]byte(resp), &r)
+		var exp []string
+		for _, bm := range w.RestoreBatch {
+			if j, ok := w.outIdx[bm.B_]; ok && w.Outs[j].Signed {
+				exp = append(exp, bm.B_)
+			}
+		}
+		w.hrestoreSignedThen = len(exp)
+		var got []string
+		for _, o := range r.Outputs {
+			got = append(got, o.B_)
+		}
+		if strings.Join(got, ",") != strings.Join(exp, ",") || len(r.Signatures) != len(exp) {
+			w.viol("C15,C20", "fixed-restore-batch-stale-or-wrong", "POST /v1/restore of the fixed batch (use %d): %d of its outputs are signed by now, the answer lists %d outputs and %d signatures", w.HRestores, len(exp), len(got), len(r.Signatures))
+			return nil
+		}
+		for i, sg := range r.Signatures {
+			if o := w.Outs[w.outIdx[exp[i]]]; o.Sig.C_ != sg.C_ || o.Sig.Amount != sg.Amount || o.Sig.Id != sg.Id {
+				w.viol("C15", "fixed-restore-batch-signature-differs", "POST /v1/restore of the fixed batch: entry %d differs from the signature originally returned", i)
+			}
 		}
 		return nil
 	case "restart":
